@@ -38,6 +38,13 @@ InvOK(o) ==
   /\ {<<o.conn[i][1], o.conn[i][2], o.conn[i][3]>> : i \in 1..Len(o.conn)} = AdjTriples(o)
   /\ ToSet(o.contains) = Names(o) /\ ToSet(o.vvec) = Names(o) /\ Len(o.vvec) = Len(o.verts)
   /\ \A n \in Names(o) : n < o.vindex
+  \* find_vertex / find_edge: every vertex and every edge is found when asked for by itself, a search by property finds a
+  \* match exactly when one is enumerated
+  /\ o.lost_v = <<>> /\ o.lost_e = <<>>
+  /\ (o.found_z = <<>>) = (\A i \in 1..Len(o.verts) : o.verts[i].ty # "Z")
+  /\ (o.found_z # <<>> => \E i \in 1..Len(o.verts) : o.verts[i].name = o.found_z[1] /\ o.verts[i].ty = "Z")
+  /\ (o.found_h = <<>>) = (\A t \in EdgeSet(o) : t[3] # "H")
+  /\ (o.found_h # <<>> => <<o.found_h[1], o.found_h[2], "H">> \in EdgeSet(o))
 
 \* ---------- renaming to tag space ----------
 TagOf(o, n) == o.verts[CHOOSE i \in 1..Len(o.verts) : o.verts[i].name = n].tag
